@@ -941,8 +941,9 @@ func genWriter(r *rng, n int, tier string, emit func(string, ...string)) {
 		}
 		cfg := fmt.Sprintf("max=%d;comp=%s;info=%s;rnum=%d;rden=%d;flush=%s;conc=%s;infosz=%d", max, tf(comp), tf(info), rt[0], rt[1], tf(r.chance(1, 4)), tf(r.chance(1, 5)), infosz)
 		if r.chance(1, 8) {
-			// a name generator whose names already end like a compressed file, in either letter case
-			cfg += ";next=" + pick(r, []string{".warc.gz", ".WARC.GZ", ".gz", ".Gz", ".warc.gzip"})
+			// a name generator whose names already end like a compressed file, in either letter case, or contain the text of the
+			// in-progress suffix (a host name like crawler1.openstack.internal, a prefix like www.opendata.example)
+			cfg += ";next=" + pick(r, []string{".warc.gz", ".WARC.GZ", ".gz", ".Gz", ".warc.gzip", ".opendata.warc", ".open.warc", ".openstack.internal.warc"})
 		}
 		stat("writer-infosz", strconv.Itoa(infosz))
 		stat("writer-cfg", fmt.Sprintf("comp=%s,info=%s,max=%s", tf(comp), tf(info), map[bool]string{true: "0", false: "pos"}[max == 0]))
